@@ -54,8 +54,10 @@ Definition struct_layout (packed : bool) (align0 : N) (ms : list minfo) : layout
   let al := ls_align (snd r) in
   {| l_size := align_to (ls_bits (snd r)) (al * 8) / 8; l_align := al; l_places := fst r |}.
 
-Definition union_layout (align0 : N) (ms : list minfo) : layout :=
-  let al := fold_left (fun a m => if negb (unnamed_bf m) && (a <? m_align m) then m_align m else a) ms align0 in
+(* union_decl: a packed union takes no alignment from its members (20d74ad; an _Alignas member would, but the summary of a member does
+   not record where its alignment comes from: such members are not part of this model) *)
+Definition union_layout (packed : bool) (align0 : N) (ms : list minfo) : layout :=
+  let al := fold_left (fun a m => if negb packed && negb (unnamed_bf m) && (a <? m_align m) then m_align m else a) ms align0 in
   let sz := fold_left (fun s m =>
                let c := match m_bf m with Some w => (w + 7) / 8 | None => m_size m end in
                if s <? c then c else s) ms 0 in
